@@ -460,10 +460,16 @@ def _mbuild(b, r):
     mid = f'm{b.cids}'
     b.cids += 1
     members = []
+    related = b.rr.random() < 0.35
     for j, root in enumerate(roots):
         rd = _equiv_render(b, root)
         rd['name_suffix'] = f'_m{j}'       # MultiChain requires distinct config names
         rd.pop('outer_ns', None) if r.random() < 0.7 else None
+        if related and 'outer_ns' not in rd:
+            # member configs whose names extend one another (model / model_v2 / model_v2_v2): distinct chains all the same
+            rd['root_name'] = 'model' + '_v2' * j
+            if rd['form'].startswith('multi'):
+                rd['form'] = rd['form'][6:]
         members.append({'root': root, 'render': rd})
     b.op(op='mbuild', mid=mid, members=members)
     cids = []
